@@ -340,3 +340,17 @@ pub fn zkir_insert_stub<T: Clone>(
 ) -> Result<(), midnight_zkir::Error> {
     Ok(())
 }
+
+/// Path cuts at the first interior-mutability access of a chip (the chips of the opaque ZkStdLib are
+/// all-zero memory; nothing behind such an access is part of the property under test).
+pub struct RefCellCuts<T: ?Sized>(core::marker::PhantomData<T>);
+impl<T: ?Sized> RefCellCuts<T> {
+    pub fn borrow_mut(_c: &core::cell::RefCell<T>) -> core::cell::RefMut<'_, T> {
+        kani::assume(false);
+        loop {}
+    }
+    pub fn borrow(_c: &core::cell::RefCell<T>) -> core::cell::Ref<'_, T> {
+        kani::assume(false);
+        loop {}
+    }
+}
